@@ -5,3 +5,4 @@ import Props.C12
 #print axioms C12.match_self
 #print axioms C12.sequence_windows_exact
 #print axioms C12.sequence_windows_count
+#print axioms C12.search_reports_exactly
